@@ -649,7 +649,24 @@ impl C21 {
             }
             ("mmaxlen", 2) => {
                 let m = some!(ctx.mask(t[1]));
-                match m.max_len() {
+                let ml = m.max_len();
+                // size is consistent with membership and iteration: max_len bounds the number of selected ids
+                if let Some(n) = ml {
+                    let sel = ctx.probes.iter().filter(|x| m.selected(**x)).count() as u64;
+                    if sel > n {
+                        ctx.fail(li, None, format!("max_len() = {n} but the mask selects {sel} of the probe ids"));
+                    }
+                    let small = m.allow_list.as_ref().and_then(|a| a.len()).map(|k| k <= BIG).unwrap_or(false);
+                    if small {
+                        if let Some(it) = m.iter_ids() {
+                            let c = it.count() as u64;
+                            if c > n {
+                                ctx.fail(li, None, format!("max_len() = {n} but iter_ids() yields {c} ids"));
+                            }
+                        }
+                    }
+                }
+                match ml {
                     None => "none".into(),
                     Some(n) => n.to_string(),
                 }
